@@ -64,7 +64,9 @@ fn hex(s: &str) -> String {
 
 fn main() {
     let db = std::env::args().nth(1).unwrap_or_else(|| "?".into());
-    log(&db, "connect");
+    // (the further arguments are logged too: what the CLI made of the command template)
+    let rest: Vec<String> = std::env::args().skip(2).map(|a| hex(&a)).collect();
+    log(&db, &if rest.is_empty() { "connect".to_string() } else { format!("connect {}", rest.join(" ")) });
     let sigint_at: u64 = std::env::var("FAKE_SIGINT_AT").ok().and_then(|s| s.parse().ok()).unwrap_or(0);
     let sigkill_at: u64 = std::env::var("FAKE_SIGKILL_AT").ok().and_then(|s| s.parse().ok()).unwrap_or(0);
     let latency: u64 = std::env::var("FAKE_LATENCY_MS").ok().and_then(|s| s.parse().ok()).unwrap_or(0);
